@@ -5,6 +5,8 @@ package main
 // kernels are assembly and cannot be interpreted from SSA).
 
 import (
+	"go/types"
+	"reflect"
 	"fmt"
 	"math/big"
 
@@ -42,13 +44,26 @@ func (e *Exec) bigRange(t *Term, what string) *Term {
 	return t
 }
 
+// BigV is the modelled value of a big.Int; it sits in the struct's second field
+// (where the real struct holds its magnitude), so copying a big.Int by value
+// (`aa = *d.value`, as shopspring/decimal does) copies the number with it.
+// n, when set, is the exact value of a constant too large for the 128-bit model
+// (t is then an unconstrained stand-in whose use fails the range obligation);
+// arithmetic between constants is done exactly by the real math/big.
+type BigV struct {
+	t *Term
+	n *big.Int
+}
+
 func (e *Exec) bigVal(v Value) *Term {
 	p, _ := v.(*Value)
 	if p == nil {
 		panic(goPanic{msg: "invalid memory address or nil pointer dereference (nil *big.Int)"})
 	}
-	if t, ok := e.bigs[p]; ok {
-		return t
+	if s, ok := (*p).(StructV); ok && len(s) == 2 {
+		if b, ok := s[1].(BigV); ok {
+			return b.t
+		}
 	}
 	return e.ctx.BVConst(bigW, 0)
 }
@@ -58,15 +73,48 @@ func (e *Exec) bigSet(v Value, t *Term) Value {
 	if p == nil {
 		panic(goPanic{msg: "invalid memory address or nil pointer dereference (nil *big.Int)"})
 	}
-	e.bigs[p] = t
+	s, ok := (*p).(StructV)
+	if !ok || len(s) != 2 {
+		panic(pathAbort{"error", "math/big model: not a big.Int cell"})
+	}
+	s[1] = BigV{t: t}
 	return p
+}
+
+// bigConst is the exact value of a big.Int cell if it is a constant.
+func (e *Exec) bigConst(p *Value) (*big.Int, bool) {
+	if s, ok := (*p).(StructV); ok && len(s) == 2 {
+		if b, ok := s[1].(BigV); ok {
+			if b.n != nil {
+				return new(big.Int).Set(b.n), true
+			}
+			if b.t.IsConst() {
+				return new(big.Int).Set(b.t.Signed()), true
+			}
+			return nil, false
+		}
+	}
+	return new(big.Int), true // zero value
+}
+
+func (e *Exec) bigSetNative(p *Value, n *big.Int) {
+	s, ok := (*p).(StructV)
+	if !ok || len(s) != 2 {
+		panic(pathAbort{"error", "math/big model: not a big.Int cell"})
+	}
+	if n.BitLen() > 100 {
+		e.bigHuge++
+		s[1] = BigV{t: e.ctx.Var(fmt.Sprintf("big.huge#%d", e.bigHuge), BV(bigW)), n: new(big.Int).Set(n)}
+		return
+	}
+	s[1] = BigV{t: e.ctx.Const(BV(bigW), n)}
 }
 
 func (e *Exec) newBig(fn *ssa.Function, t *Term) *Value {
 	p := e.P.prog.ImportedPackage("math/big")
 	var cell Value = e.zero(p.Type("Int").Type())
 	ptr := &cell
-	e.bigs[ptr] = t
+	e.bigSet(ptr, t)
 	return ptr
 }
 
@@ -94,13 +142,18 @@ func init() {
 			panic(pathAbort{"error", "big.Int.SetBytes on symbolic bytes is not modelled"})
 		}
 		v := new(big.Int).SetBytes(bs)
-		if v.BitLen() > 100 {
-			// outside the modelled range: an unconstrained value, so that any use of
-			// it fails the range obligation instead of computing with a wrong number
-			e.bigHuge++
-			return e.bigSet(a[0], e.ctx.Var(fmt.Sprintf("big.huge#%d", e.bigHuge), BV(bigW)))
+		e.bigSetNative(a[0].(*Value), v)
+		return a[0]
+	}
+	// Float64: nearest float64 (the accuracy result is reported as Exact; vouch discards it)
+	I[B+"Float64"] = func(e *Exec, th *Thread, fn *ssa.Function, a []Value) Value {
+		v := e.bigVal(a[0])
+		acc := e.ctx.BVConst(8, 0)
+		if v.IsConst() {
+			f, _ := new(big.Float).SetInt(v.Signed()).Float64()
+			return TupleV{e.ctx.FPConst(f), acc}
 		}
-		return e.bigSet(a[0], e.ctx.Const(BV(bigW), v))
+		return TupleV{e.ctx.FPFromBV(v, true), acc}
 	}
 	I[B+"Bits"] = func(e *Exec, th *Thread, fn *ssa.Function, a []Value) Value { return SliceV(nil) }
 	I[B+"SetBits"] = func(e *Exec, th *Thread, fn *ssa.Function, a []Value) Value {
@@ -203,10 +256,171 @@ func init() {
 	I[B+"Text"] = str
 	I[B+"SetString"] = func(e *Exec, th *Thread, fn *ssa.Function, a []Value) Value {
 		v, ok := new(big.Int).SetString(e.goString(a[1], "big.SetString"), e.concreteInt(a[2], "base"))
-		if !ok || v.BitLen() > 100 {
+		if !ok {
 			return TupleV{(*Value)(nil), e.ctx.False}
 		}
-		return TupleV{e.bigSet(a[0], e.ctx.Const(BV(bigW), v)), e.ctx.True}
+		e.bigSetNative(a[0].(*Value), v)
+		return TupleV{a[0], e.ctx.True}
 	}
 	_ = fmt.Sprint
+}
+
+// nativeBig evaluates a *big.Int method that has no symbolic model by calling
+// the real math/big on concrete operands (every *big.Int operand a constant,
+// every other argument a concrete basic value). Anything else is refused: the
+// fake big.Int struct of the model must never be interpreted from math/big's
+// own code.
+func (e *Exec) nativeBig(fn *ssa.Function, args []Value) (Value, bool) {
+	sig := fn.Signature
+	if sig.Recv() == nil || len(args) == 0 {
+		return nil, false
+	}
+	rp, ok := sig.Recv().Type().(*types.Pointer)
+	if !ok || rp.Elem().String() != "math/big.Int" {
+		return nil, false
+	}
+	isBigPtr := func(t types.Type) bool {
+		p, ok := t.(*types.Pointer)
+		return ok && p.Elem().String() == "math/big.Int"
+	}
+	type slot struct {
+		ptr *Value
+		nat *big.Int
+	}
+	var slots []slot
+	natOf := func(v Value) (*big.Int, bool) {
+		p, _ := v.(*Value)
+		if p == nil {
+			return nil, true // nil *big.Int argument
+		}
+		for _, s := range slots {
+			if s.ptr == p {
+				return s.nat, true
+			}
+		}
+		n, ok := e.bigConst(p)
+		if !ok {
+			return nil, false
+		}
+		slots = append(slots, slot{p, n})
+		return n, true
+	}
+	for i := 0; i < sig.Results().Len(); i++ {
+		rt := sig.Results().At(i).Type()
+		if _, basic := rt.Underlying().(*types.Basic); !basic && !isBigPtr(rt) {
+			return nil, false // e.g. Bits() []Word: has its own model
+		}
+	}
+	recv, ok := natOf(args[0])
+	if !ok || recv == nil {
+		return nil, false
+	}
+	m := reflect.ValueOf(recv).MethodByName(fn.Name())
+	if !m.IsValid() {
+		return nil, false
+	}
+	var in []reflect.Value
+	for i := 0; i < sig.Params().Len(); i++ {
+		pt := sig.Params().At(i).Type()
+		a := args[i+1]
+		switch {
+		case isBigPtr(pt):
+			n, ok := natOf(a)
+			if !ok {
+				return nil, false
+			}
+			in = append(in, reflect.ValueOf(n))
+		default:
+			b, isBasic := pt.Underlying().(*types.Basic)
+			if !isBasic {
+				return nil, false
+			}
+			want := m.Type().In(i)
+			switch {
+			case b.Info()&types.IsString != 0:
+				s, ok := a.(string)
+				if !ok {
+					return nil, false
+				}
+				in = append(in, reflect.ValueOf(s).Convert(want))
+			case b.Info()&types.IsBoolean != 0:
+				t, ok := a.(*Term)
+				if !ok || !t.IsConst() {
+					return nil, false
+				}
+				in = append(in, reflect.ValueOf(t.IsTrue()).Convert(want))
+			case b.Info()&types.IsInteger != 0:
+				t, ok := a.(*Term)
+				if !ok || !t.IsConst() {
+					return nil, false
+				}
+				if b.Info()&types.IsUnsigned != 0 {
+					in = append(in, reflect.ValueOf(t.Uint64()).Convert(want))
+				} else {
+					in = append(in, reflect.ValueOf(t.Signed().Int64()).Convert(want))
+				}
+			default:
+				return nil, false
+			}
+		}
+	}
+	var out []reflect.Value
+	func() {
+		defer func() {
+			if r := recover(); r != nil {
+				panic(goPanic{msg: fmt.Sprintf("math/big: %v", r)})
+			}
+		}()
+		out = m.Call(in)
+	}()
+	// write every operand back (results written through pointer arguments included)
+	for _, s := range slots {
+		e.bigSetNative(s.ptr, s.nat)
+	}
+	conv := func(v reflect.Value, t types.Type) Value {
+		if isBigPtr(t) {
+			n, _ := v.Interface().(*big.Int)
+			if n == nil {
+				return (*Value)(nil)
+			}
+			for _, s := range slots {
+				if s.nat == n {
+					return s.ptr
+				}
+			}
+			np := e.newBig(fn, e.ctx.BVConst(bigW, 0))
+			e.bigSetNative(np, n)
+			return np
+		}
+		b, _ := t.Underlying().(*types.Basic)
+		switch {
+		case b == nil:
+			panic(pathAbort{"error", "math/big native call: unsupported result type " + t.String()})
+		case b.Info()&types.IsString != 0:
+			return v.String()
+		case b.Info()&types.IsBoolean != 0:
+			return e.ctx.Bool(v.Bool())
+		case b.Info()&types.IsFloat != 0:
+			return e.fpConst(v.Float())
+		case b.Info()&types.IsUnsigned != 0:
+			w, _, _ := intWidth(t)
+			return e.ctx.BVConstU(w, v.Uint())
+		case b.Info()&types.IsInteger != 0:
+			w, _, _ := intWidth(t)
+			return e.ctx.BVConst(w, v.Int())
+		}
+		panic(pathAbort{"error", "math/big native call: unsupported result type " + t.String()})
+	}
+	res := sig.Results()
+	switch res.Len() {
+	case 0:
+		return nil, true
+	case 1:
+		return conv(out[0], res.At(0).Type()), true
+	}
+	tv := make(TupleV, res.Len())
+	for i := range tv {
+		tv[i] = conv(out[i], res.At(i).Type())
+	}
+	return tv, true
 }
